@@ -27,7 +27,7 @@ Proof.
     now apply inb_zeros.
   - apply andb_true_iff in Hi as [Hx Hi]. apply Nat.ltb_lt in Hx.
     destruct need as [|y need].
-    + cbn [grow]. unfold sp_pad. rewrite (inb_length _ _ Hi). cbn [length]. rewrite Nat.sub_diag. cbn [repeat].
+    + cbn [grow]. unfold sp_pad. cbn [length]. rewrite (inb_length _ _ Hi), Nat.sub_diag. cbn [repeat].
       rewrite app_nil_r. cbn [inb]. rewrite Hi, andb_true_r. now apply Nat.ltb_lt.
     + cbn [grow length skipn] in *. unfold sp_pad. cbn [length app Nat.sub inb].
       specialize (IH need i Hi Hn). unfold sp_pad in IH. rewrite IH, andb_true_r. apply Nat.ltb_lt. lia.
@@ -43,7 +43,8 @@ Qed.
 Lemma col_need_pos ps m : ps <> [] -> Forall (fun x => 1 <= x) (col_need ps m).
 Proof.
   revert ps; induction m as [|m IH]; intros ps Hne; cbn [col_need]; constructor.
-  - destruct ps as [|r ps]; [contradiction|]. cbn. lia.
+  - destruct ps as [|r ps]; [contradiction|]. cbn [map fold_right].
+    apply Nat.le_trans with (S (hd 0 r)); [lia|apply Nat.le_max_l].
   - apply IH. destruct ps; [contradiction|]. discriminate.
 Qed.
 
